@@ -537,7 +537,62 @@ def _wide_shard(ctx: Ctx, item):
         ctx.report(b, w, c)
 
 
+def _all_fast(ctx: Ctx, keys):
+    """Every fast-packet definition of the database: two senders' messages interleaved frame by frame (and once with the frames of each
+    message in reverse order) come back complete - exactly what the pre-assembled payload decodes to - and only at the last frame."""
+    from nmea2000.decoder import NMEA2000Decoder
+    from .. import canboat, gen
+    db = canboat.db()
+
+    def fields(m):
+        return None if m is None else (m.id, m.PGN, m.source, m.destination, tuple((f.id, repr(f.value), repr(f.raw_value)) for f in m.fields))
+    for key in keys:
+        d = db.by_key[key]
+        bp, bn, _ = gen.benign_payload(d)
+        if bn > 223 or db.select(d.pgn, bp) is not d:
+            continue
+        payload = bp.to_bytes(bn, "little")
+        dest = 255 if ((d.pgn >> 8) & 0xFF) >= 240 else 9
+        for order in ("forward", "reverse"):
+            dec = NMEA2000Decoder()
+            want = {}
+            for src in (3, 4):
+                try:
+                    want[src] = fields(NMEA2000Decoder().decode_basic_string(gen.basic_string(d.pgn, bp, bn, src=src, dest=dest), already_combined=True))
+                except Exception:
+                    want[src] = None
+            fr = {3: wire.segment(payload, 2), 4: wire.segment(payload, 5)}
+            idx = list(range(len(fr[3])))
+            if order == "reverse":
+                idx = [0] + idx[:0:-1]
+            got, early = {}, []
+            for pos, i in enumerate(idx):
+                for src in (3, 4):
+                    try:
+                        r = wire.owned(dec.decode_tcp, wire.ebyte(wire.ident(d.pgn, src, dest, 3), fr[src][i]))
+                    except Exception as e:
+                        r = None
+                        got[src] = ("error", type(e).__name__)
+                    if r is not None:
+                        if pos < len(idx) - 1:
+                            early.append((src, pos))
+                        got[src] = fields(r)
+            ctx.count()
+            ctx.nontrivial_extra += 1
+            case = {"all_fast": key, "order": order}
+            if early:
+                ctx.report("C04|ebyte|all-fast|early", f"{key}: a message was returned at frame position {early[0][1]} of {len(idx)}", case)
+            for src in (3, 4):
+                if got.get(src) != want[src]:
+                    ctx.report("C04|ebyte|all-fast|differs", f"{key} ({order} frame order, two interleaved senders): sender {src} got "
+                               f"{str(got.get(src))[:120]}, the pre-assembled payload decodes to {str(want[src])[:120]}", case)
+    ctx.klass("all_fast_definitions", len(keys))
+
+
 def run(ctx: Ctx):
+    from .. import canboat as _cb
+    fast_keys = [d.key for d in _cb.db().defs if d.supported and d.fast]
+    pmap(ctx, _all_fast, [fast_keys[i::16] for i in range(16)])
     from .. import longrun
     pmap(ctx, longrun.ticks, [(x, "C04") for x in longrun.limits(ctx)])
     fmts = ["ebyte"] if ctx.quick else ["ebyte", "usb", "yd"]
@@ -567,6 +622,11 @@ def run(ctx: Ctx):
 
 
 def replay(ctx: Ctx, case):
+    if "all_fast" in case:
+        sub = Ctx(ctx.pid)
+        sub.known_open = {}
+        _all_fast(sub, [case["all_fast"]])
+        return [(b, v["what"], v["case"]) for b, v in sub.found.items() if v["case"].get("order") == case.get("order")]
     if "ticks" in case:
         from .. import longrun
         return longrun.replay(case, "C04")
